@@ -328,6 +328,9 @@ func hashKey(v value) (interface{}, bool) {
 // ---- load / store (structs and arrays are copied) ----
 
 func load(T types.Type, addr *value) value {
+	if n, ok := (*addr).(native); ok {
+		return n // opaque host object standing for an external struct value
+	}
 	switch T := T.Underlying().(type) {
 	case *types.Struct:
 		v := (*addr).(structure)
@@ -349,6 +352,10 @@ func load(T types.Type, addr *value) value {
 }
 
 func store(T types.Type, addr *value, v value) {
+	if _, ok := v.(native); ok {
+		*addr = v
+		return
+	}
 	switch T := T.Underlying().(type) {
 	case *types.Struct:
 		lhs := (*addr).(structure)
